@@ -55,6 +55,16 @@ func genMultiVar(r *vh.Rng, idx int, declared string, source string) *history {
 		cases = append(cases, fmt.Sprintf("case *%s: return %q", t, "*"+strings.Split(t, "_")[0]))
 	}
 	tn := g.fvFunc("tn", "func $(x interface{}) string { switch x.(type) { case nil: return \"nil\"; "+strings.Join(cases, "; ")+" }; return \"other\" }", kind+":setup")
+	// a value of an interpreted interface type converted to interface{} keeps gomacro's emulation wrapper (the type switch
+	// answers "other" even after `var s Str = W{1}`: outside this property), so method-interface variables are observed
+	// through their method
+	sv := g.fvFunc("sv", "func $(x "+Str+") string { if x == nil { return \"nil\" }; return x.S() }", kind+":setup")
+	dyn := func(v string) string {
+		if declared == "Str" {
+			return fmt.Sprintf("%s(%s)", sv, v)
+		}
+		return fmt.Sprintf("%s(%s)", tn, v)
+	}
 	gi := g.fvVar("gi", tInt, "5", false, kind+":setup", "EZ 0")
 
 	// ---- declared type, pool of values assignable to it
@@ -70,7 +80,7 @@ func genMultiVar(r *vh.Rng, idx int, declared string, source string) *history {
 	case "E":
 		T, pool = E, ifacePool
 	case "Str":
-		T, pool = Str, []mvVal{{W, W + "{3}"}, {V, V + `{"v"}`}, {"*" + W, "(*" + W + ")(nil)"}, {W, W + "{4}"}, {V, V + `{"w"}`}}
+		T, pool = Str, []mvVal{{W, W + "{3}"}, {V, V + `{"v"}`}, {"*" + W, "&" + W + "{5}"}, {W, W + "{4}"}, {V, V + `{"w"}`}}
 	case "L":
 		T, pool = L, []mvVal{{"[]int", "[]int{1, 2}"}, {"[]int", "nil"}, {"[]int", "[]int{3}"}, {L, L + "{4, 5}"}}
 	case "<-chan int":
@@ -145,15 +155,17 @@ func genMultiVar(r *vh.Rng, idx int, declared string, source string) *history {
 			if nilable && r.Chance(2, 3) {
 				read(v.gm+" == nil", tag+":nil")
 			}
-			if r.Chance(2, 3) {
-				read(fmt.Sprintf("%s(%s)", tn, v.gm), tag+":dynamic-type")
+			if declared == "L" { // a type switch cannot tell L from []int in gomacro (see above)
+				read("len("+v.gm+")", tag+":len")
+			} else if r.Chance(2, 3) {
+				read(dyn(v.gm), tag+":dynamic-type")
 			}
 			if ptrObservable && r.Chance(2, 3) {
 				read(fmt.Sprintf("%s(&%s)", tn, v.gm), tag+":pointer-type")
 				v.deps = true
 			}
 			if declared == "Str" && r.Chance(1, 2) {
-				read(fmt.Sprintf("%s != nil && %s(%s) != \"*W\" && %s.S() != \"\"", v.gm, tn, v.gm, v.gm), tag+":method")
+				read(fmt.Sprintf("%s != nil && %s.S() != \"\"", v.gm, v.gm), tag+":method")
 			}
 			if !nilable {
 				read(v.gm, tag+":value")
@@ -189,16 +201,16 @@ func genMultiVar(r *vh.Rng, idx int, declared string, source string) *history {
 			}
 			g.fvStmt(fmt.Sprintf("%s = nil", v.gm), kind+":assign-nil", fmt.Sprintf("SSet %d (EZ 0)", v.id))
 		case "func":
-			if !nilable {
+			if !nilable || declared == "L" {
 				continue
 			}
 			w := pick(r, vars)
-			amp := "&"
-			if !ptrObservable {
-				amp = ""
+			second := dyn(w.gm)
+			if ptrObservable {
+				second = fmt.Sprintf("%s(&%s)", tn, w.gm)
 			}
-			f := g.fvFunc("use", fmt.Sprintf("func $() string { r := %s(%s) + \"/\" + %s(%s%s); %s = %s; return r + \"/\" + %s(%s) }",
-				tn, v.gm, tn, amp, w.gm, v.gm, other(), tn, v.gm), kind+":func")
+			f := g.fvFunc("use", fmt.Sprintf("func $() string { r := %s + \"/\" + %s; %s = %s; return r + \"/\" + %s }",
+				dyn(v.gm), second, v.gm, other(), dyn(v.gm)), kind+":func")
 			v.deps, w.deps = true, true
 			read(f+"()", "call-of-later-function")
 		}
